@@ -10,12 +10,15 @@
 (*        [init, cc (1 = state-changed callback installed), ss]            *)
 (*        ss = sequence of states [id, en, ex (1 = enter/exit action       *)
 (*             installed), sub (machine index or 0), rs, hd]; id 0 is a    *)
-(*             user-defined terminal state (no routes/handlers/sub);       *)
-(*             when it is not defined the implicit one has no actions      *)
+(*             user-defined terminal state: an ordinary state (it may have *)
+(*             handlers and outgoing routes, no nested machine) that makes *)
+(*             isTerminated() true while it is current; when it is not     *)
+(*             defined the implicit one has no actions / routes / handlers *)
 (*        rs = ordered routes [ev (0 = ANY), to, g (guard id, 0 = none),   *)
 (*             a (action id, 0 = none)]; every guard id is used by one     *)
 (*             route only                                                  *)
-(*        hd = handlers [ev (0 = default), h (handler id)]                 *)
+(*        hd = handlers [ev (0 = default), h (handler id)] in registration *)
+(*             order; a later one for the same event REPLACES the earlier  *)
 (*   gs : guard id  -> cyclic script of 0/1 results                        *)
 (*   hs : handler id -> cyclic script of results (-1 = no target)          *)
 (*   re : re-entrant attempts [m, k, id, c, t]: the first time callback    *)
@@ -54,7 +57,8 @@ EXTENDS Integers, Sequences, FiniteSets, TLC
 
 CONSTANT Variant     \* "ref" | "stop_keeps_sub" | "stuck_parent" | "reverse_scan" | "handler_ignored"
                      \* | "enter_first" | "exit_twice" | "parent_first" | "no_reent_guard"
-                     \* | "guard_released_early" | "route_bound_early"
+                     \* | "guard_released_early" | "route_bound_early" | "handler_first_wins"
+                     \* | "terminated_ignores_events"
 CONSTANT StopOrders  \* subset of {0,1}: 0 = stop() stops the sub-machine before the exit action, 1 = after
 
 VARIABLES prog,      \* the program (never changes during a behaviour)
@@ -63,14 +67,20 @@ VARIABLES prog,      \* the program (never changes during a behaviour)
 vars == <<prog, pi, st, lastCall, lastOut, lastRet, viol>>
 
 MinOf(S) == CHOOSE x \in S : \A y \in S : x <= y
+MaxOf(S) == CHOOSE x \in S : \A y \in S : x >= y
 B2I(b) == IF b THEN 1 ELSE 0
 Mach(m) == prog.ms[m]
 TermRec == [id |-> 0, en |-> 0, ex |-> 0, sub |-> 0, rs |-> <<>>, hd |-> <<>>]
 StateIdx(m, s) == {i \in 1..Len(Mach(m).ss) : Mach(m).ss[i].id = s}
 StateRec(m, s) == IF StateIdx(m, s) = {} THEN TermRec ELSE Mach(m).ss[MinOf(StateIdx(m, s))]
-HandlerFor(sr, ev) == LET sp == {i \in 1..Len(sr.hd) : sr.hd[i].ev = ev}
-                          df == {i \in 1..Len(sr.hd) : sr.hd[i].ev = 0}
-                      IN IF sp # {} THEN sr.hd[MinOf(sp)].h ELSE IF df # {} THEN sr.hd[MinOf(df)].h ELSE 0
+(* the handler in charge of ev in state sr: the specific one, else the default one; of several registered for the    *)
+(* same event the LAST registered (addEvent replaces).  HandlerSem is what the semantics uses (a wrong variant keeps  *)
+(* the first), HandlerFor is the declarative statement the clauses use.                                              *)
+HandlerPick(sr, ev, Pick(_)) == LET sp == {i \in 1..Len(sr.hd) : sr.hd[i].ev = ev}
+                                    df == {i \in 1..Len(sr.hd) : sr.hd[i].ev = 0}
+                                IN IF sp # {} THEN sr.hd[Pick(sp)].h ELSE IF df # {} THEN sr.hd[MaxOf(df)].h ELSE 0
+HandlerFor(sr, ev) == HandlerPick(sr, ev, MaxOf)
+HandlerSem(sr, ev) == IF Variant = "handler_first_wins" THEN HandlerPick(sr, ev, MinOf) ELSE HandlerFor(sr, ev)
 
 Keys(P) == UNION {{<<m, P.ms[m].ss[i].id>> : i \in 1..Len(P.ms[m].ss)} \cup {<<m, 0>>} : m \in 1..Len(P.ms)}
 InitSt(P) == [run  |-> [m \in 1..Len(P.ms) |-> FALSE], cur |-> [m \in 1..Len(P.ms) |-> -1],
@@ -165,7 +175,7 @@ Own(s, m, ev, subChanged) ==
   LET c   == s.cur[m]
       sr  == StateRec(m, c)
       s0  == Emit(s, Ev(0, <<"P", m, c, ev>>, [gp |-> s.gp, hp |-> s.hp, run |-> s.run, cur |-> s.cur]))
-      h   == HandlerFor(sr, ev)
+      h   == HandlerSem(sr, ev)
       hv  == IF h = 0 THEN -1 ELSE prog.hs[h][s0.hp[h] + 1]
       s1  == IF h = 0 THEN s0
              ELSE LET a == [s0 EXCEPT !.cb[m] = @ + 1, !.hp[h] = (@ + 1) % Len(prog.hs[h])]
@@ -181,6 +191,7 @@ Own(s, m, ev, subChanged) ==
 
 RunM(s, m, ev) ==
   IF ~s.run[m] \/ s.cb[m] # 0 THEN Res(s, FALSE, FALSE)
+  ELSE IF Variant = "terminated_ignores_events" /\ s.cur[m] = 0 THEN Res(s, FALSE, FALSE)    \* wrong: state 0 is an ordinary state
   ELSE LET k == StateRec(m, s.cur[m]).sub
            consult == k # 0 /\ Variant # "parent_first" /\ (s.run[k] \/ Variant = "stuck_parent")
        IN IF consult                                          \* events go to the ACTIVE nested machine ...
@@ -266,9 +277,13 @@ C_FirstMatchingRoute(w) == \A i \in 1..Len(w.out) : w.out[i].t[1] = "P" =>
 RECURSIVE ChainFrom(_, _)
 ChainFrom(s, m) == LET k == StateRec(m, s.cur[m]).sub IN
                    IF k # 0 /\ s.run[k] THEN <<m>> \o ChainFrom(s, k) ELSE <<m>>
-TermInCall(o, k) == \/ o[1].g.cur[k] = 0
-                    \/ \E i \in 1..Len(o) : /\ o[i].t[1] = "C" /\ o[i].t[2] = k /\ o[i].t[5] = 0
-                                             /\ ~\E j \in 1..(i - 1) : o[j].t[1] = "E" /\ o[j].t[2] = k /\ o[j].t[4] = 0
+(* the nested machine k, active when the call began, is terminated when it has processed the event: it is in state 0 *)
+(* after its transition of this call (before any restart of k within the call), or it made none and was in state 0    *)
+(* already (a user-defined state 0 may have routes that lead out of it again: then k is NOT terminated)               *)
+TermInCall(o, k) ==
+  LET seg == {i \in 1..Len(o) : ~\E j \in 1..i : o[j].t[1] = "E" /\ o[j].t[2] = k /\ o[j].t[4] = 0}
+      cs  == {i \in seg : o[i].t[1] = "C" /\ o[i].t[2] = k}
+  IN IF cs = {} THEN o[1].g.cur[k] = 0 ELSE o[MaxOf(cs)].t[5] = 0
 C_SubMachineFirstUntilTerminated(w) == (w.call[1] = 4 /\ w.out[1].g.run[1]) =>
   LET o  == w.out
       ch == ChainFrom(o[1].g, 1)
@@ -353,7 +368,7 @@ InitWith(i, P) == /\ pi = i /\ prog = P /\ st = InitSt(P) /\ lastCall = <<0, 0>>
 (*   <<"S",m,si,0>> newState(ss[si])   <<"R",m,si,j>> addRoute(ss[si].rs[j])   <<"H",m,si,j>> addEvent(ss[si].hd[j])      *)
 (*   <<"I",m,0,0>> setInitState(init)  <<"U",m,si,0>> setSubStateMachine(ss[si].id, machine ss[si].sub)                   *)
 (* in ANY legal order: a state exists before its routes / handlers / nested machine are attached, the routes of one   *)
-(* state keep their registration order, a route's target exists unless it is the terminal state 0 (which the user may  *)
+(* state and its handlers keep their registration order, a route's target exists unless it is the terminal state 0 (which the user may  *)
 (* declare later, or never), setInitState may come at any time and may be omitted iff the first declared state is the  *)
 (* initial one.  The reference semantics above does not read defs: the meaning of a program is independent of the      *)
 (* order of its definition calls (except the relative order of the routes of a state).                                 *)
@@ -379,7 +394,8 @@ DefsLegal(P) ==
                      /\ once(<<"R", m, si, j>>) /\ pos(<<"R", m, si, j>>) > pos(<<"S", m, si, 0>>)
                      /\ j > 1 => pos(<<"R", m, si, j>>) > pos(<<"R", m, si, j - 1>>)
                      /\ S.rs[j].to # 0 => pos(<<"R", m, si, j>>) > pos(<<"S", m, sidx(m, S.rs[j].to), 0>>)
-               /\ \A j \in 1..Len(S.hd) : once(<<"H", m, si, j>>) /\ pos(<<"H", m, si, j>>) > pos(<<"S", m, si, 0>>)
+               /\ \A j \in 1..Len(S.hd) : /\ once(<<"H", m, si, j>>) /\ pos(<<"H", m, si, j>>) > pos(<<"S", m, si, 0>>)
+                                          /\ j > 1 => pos(<<"H", m, si, j>>) > pos(<<"H", m, si, j - 1>>)
                /\ S.sub # 0 => once(<<"U", m, si, 0>>) /\ pos(<<"U", m, si, 0>>) > pos(<<"S", m, si, 0>>)
           /\ IF at(<<"I", m, 0, 0>>) # {} THEN once(<<"I", m, 0, 0>>)
              ELSE LET first == MinOf({i \in 1..Len(D) : D[i][1] = "S" /\ D[i][2] = m}) IN M.ss[D[first][3]].id = M.init
